@@ -376,6 +376,66 @@ pub fn run_case(prop: &str, tapes: &mut Tapes) -> Result<CaseResult, HarnessErro
                     }),
                     _ => {}
                 }
+                // F7b: two *different* compiled queries over the same world, live at the same
+                // time on one adapter; each stream must equal its own solo lazy run.
+                let mut qcfg2 = crate::qast::QueryCfg::draw(&mut tapes.query, false);
+                qcfg2.max_vertices = qcfg2.max_vertices.min(5);
+                let q2 = crate::qast::gen_query(&w.world, &mut tapes.query, qcfg2);
+                let args2 = crate::qast::gen_args(&q2, &w.world, &mut tapes.args);
+                let schema2 = trustfall_core::schema::Schema::parse(&w.schema_text)
+                    .map_err(|e| HarnessError(format!("schema re-parse failed: {e}")))?;
+                if let Ok(w2) = crate::runner::finish_workload(w.world.clone(), w.schema_text.clone(), schema2, q2, args2) {
+                    let m2 = w2.model();
+                    if !m2.overflow {
+                        let mut o = ExecOpts::new(SchedCfg::lazy());
+                        o.event_cap = m2.event_cap();
+                        let s2 = exec(&w2, o, sched);
+                        sched = s2.sched.clone();
+                        harness_check(&s2)?;
+                        cx.absorb(&s2);
+                        if completed(&s2) {
+                            let cfg = if sched.draw(2) == 1 { SchedCfg::draw(&mut sched, false) } else { SchedCfg::lazy() };
+                            let order: Vec<&Workload> = if sched.draw(2) == 1 { vec![&w, &w2, &w] } else { vec![&w2, &w] };
+                            let cap = (model.event_cap() + m2.event_cap()) * 2;
+                            let io = crate::runner::exec_interleaved_multi(&order, cfg, sched, cap);
+                            sched = io.sched.clone();
+                            if let Ending::HarnessBug(m) = &io.ending {
+                                return Err(HarnessError(format!("harness self-check: {m}")));
+                            }
+                            cx.stats.execs += 1;
+                            cx.stats.fires.add(&io.fires);
+                            if io.switches >= 2 {
+                                cx.stats.probes.insert("interleaved_different_queries_switched".into());
+                            }
+                            match &io.ending {
+                                Ending::Completed => {
+                                    for (i, st) in io.streams.iter().enumerate() {
+                                        let solo = if std::ptr::eq(order[i], &w) { &e0.rows } else { &s2.rows };
+                                        if let Some(d) = seq_differs(solo, st) {
+                                            cx.push(
+                                                "interleaved-stream-differs-from-solo-run",
+                                                format!("[different queries interleaved, stream {i} of {}] second query: {} | {d}", order.len(), w2.query_text.replace('\n', " ")),
+                                                "interleaved-different",
+                                            );
+                                            break;
+                                        }
+                                    }
+                                }
+                                Ending::Panic(info) => cx.violations.push(Violation {
+                                    property: prop.to_string(),
+                                    class: "panic-only-under-interleaving".into(),
+                                    detail: format!(
+                                        "[different queries interleaved] panicked at {}: {}",
+                                        info.location,
+                                        first_line(&info.message)
+                                    ),
+                                    fingerprint: info.fingerprint(),
+                                }),
+                                _ => {}
+                            }
+                        }
+                    }
+                }
             }
         }
         "C03" => {
